@@ -311,15 +311,39 @@ static std::string printable(const std::string& s) {
 
 static std::map<std::string, int> gPrinted;
 
+// long-run cases of SerializerLong: [doc with v^1, cfg, N, err, warn, pre, unit, suf, Parse(Ser(v^1)), eq, tags] -> the shape of a short
+// case with every value repeated N times and the output items pre + unit^N + suf (pure repetition, no expectation is computed here)
+static json expandLong(const json& l) {
+    const size_t n = l[2].get<size_t>();
+    auto scale = [&](const json& doc) {
+        json d = doc;
+        for (auto& nd : d) {
+            json v = json::array();
+            for (auto& c : nd[6]) for (size_t i = 0; i < n; i++) v.push_back(c);
+            nd[6] = v;
+        }
+        return d;
+    };
+    json items = json::array();
+    for (auto& it : l[5]) items.push_back(it);
+    for (size_t i = 0; i < n; i++) for (auto& it : l[6]) items.push_back(it);
+    for (auto& it : l[7]) items.push_back(it);
+    return json::array({scale(l[0]), l[1], l[3], l[4], l[3].get<bool>() ? json::array() : items, scale(l[8]), l[9], l[10]});
+}
+static std::string clip(const std::string& s) { return s.size() <= 400 ? s : s.substr(0, 200) + " ...[" + std::to_string(s.size()) + " bytes]... " + s.substr(s.size() - 120); }
+
 static int modeT(const std::string& tier) {
     static World* w = nullptr;
     const auto& encs = tier == "thorough" ? kEncThorough : kEncQuick;
     Supervisor sup;
-    sup.timeoutSec = 20;
+    sup.timeoutSec = 120;
     sup.initChild = [&]() { XMLPlatformUtils::Initialize(); w = new World(); };
     sup.handle = [&](const std::string& line, std::string& stat, bool& tainted) -> std::string {
         json j;
         if (!decode_tlc_line(line, j)) { stat = "torn"; return ""; }
+        const json orig = j;
+        const bool isLong = j.size() == 11;
+        if (isLong) j = expandLong(orig);
         const json &doc = j[0], &cfg = j[1], &items = j[4], &rt = j[5];
         const bool expErr = j[2], expWarn = j[3], expEq = j[6];
         const std::string encClass = cfg[0], top = cfg[3];
@@ -329,6 +353,7 @@ static int modeT(const std::string& tier) {
         std::sort(tags.begin(), tags.end());
         std::string action = tags.empty() ? cap(doc.back()[0]) : tags[0].first, contains = tags.empty() ? "" : tags[0].second;
         stat = "cases";
+        if (isLong) stat += "\tlong\tlen:" + std::to_string(orig[2].get<size_t>());
         stat += expErr ? "\texpect:error" : "\texpect:ok";
         stat += "\tkind:" + cap(doc.back()[0]);
         std::string out;
@@ -337,7 +362,9 @@ static int modeT(const std::string& tier) {
             std::string key = cls.dump() + enc;
             stat += "\tmismatches\tmm:" + action + "|" + contains + "|" + check;
             if (gPrinted[key]++ >= 3) return;      // the first few cases of a class are written out, the rest only counted
-            extra["line"] = j;
+            extra["line"] = orig;
+            for (const char* k : {"expected", "got", "second"}) if (extra.contains(k)) extra[k] = clip(extra[k].get<std::string>());
+            if (extra.contains("reparsed") && isLong) extra.erase("reparsed");
             extra["encoding"] = enc;
             extra["mode"] = "T";
             out += dumpLine({{"t", "mismatch"}, {"cls", cls}, {"why", why}, {"case", extra}});
@@ -345,7 +372,7 @@ static int modeT(const std::string& tier) {
         std::string berr;
         DOMDocument* d = w->build(doc, v11, berr);
         if (!d) { mismatch("harness-build", "", berr, json::object()); return out; }
-        if (projectDoc(d) != doc) { mismatch("harness-build", "", "the document built through the DOM API does not project to the case", {{"got", projectDoc(d)}}); d->release(); return out; }
+        if (projectDoc(d) != doc) { mismatch("harness-build", "", "the document built through the DOM API does not project to the case", json::object()); d->release(); return out; }
         const DOMNode* target = top == "elem" ? (const DOMNode*)d->getDocumentElement() : (const DOMNode*)d;
         for (const std::string& enc : encs.at(encClass)) {
             if (enc == "@string" && bom) continue;     // writeToString switches the byte-order mark off
@@ -423,7 +450,7 @@ static int modeT(const std::string& tier) {
 static int modeF(const std::string& tier) {
     const auto& encs = tier == "thorough" ? kEncThorough : kEncQuick;
     Supervisor sup;
-    sup.timeoutSec = 20;
+    sup.timeoutSec = 120;
     sup.initChild = [&]() { XMLPlatformUtils::Initialize(); };
     sup.handle = [&](const std::string& line, std::string& stat, bool& tainted) -> std::string {
         json j;
